@@ -59,6 +59,6 @@ def run(tier, seed):
     t0 = time.time()
     outs = run_cases("C10", cases(tier, seed), attribute=ATTR)
     return finish("C10", tier, seed, t0, outs, RULE,
-                  required_bits=["static_hint_phase", "suspension_inside_callable", "std_thread_hop", "bulk_hop", "execute", "multi_pool"],
+                  required_bits=["static_hint_phase", "suspension_inside_callable", "std_thread_hop", "bulk_hop", "execute", "multi_pool", "wakeup_found_target_active"],
                   assumptions=["placement is judged for callables reached on the value channel", "the worker guarantee is judged only for "
                                "normal-priority hinted tasks on static policies; pools are bound to distinct PUs of the real machine"])
